@@ -8,7 +8,7 @@
     calls the CAS received.  [fm k batch] is the CAS's answer to the k-th
     FindMissing call (any function: presence may change from call to call, calls
     may fail), [nth j gets] what Get(tree of output directory j) delivered. *)
-From BBS Require Import Common.Sx Complete.WireVisit Complete.Completeness
+From BBS Require Import Common.Sx Complete.WireVisit Complete.WireVisitProofs Complete.Completeness
   Complete.CompletenessProofs.
 
 (** Result returned => every referenced digest (output files, stdout, stderr,
@@ -123,3 +123,52 @@ Example corrupted_example :
          [get_corrupted [(mkDir [ex_wd 5] [ex_wd 7], 40)] code_invalid] (AcOk 50 ex_ar))
   = Some code_internal.
 Proof. vm_compute. reflexivity. Qed.
+
+(** ---- The wire-level visitor util.VisitProtoBytesFields (byte level). *)
+
+(** On a well-formed encoding (canonical varints, field numbers 1..2^31-1, fewer
+    than 2^63 bytes) it visits exactly the top-level length-delimited fields, in
+    order, with number, payload, payload offset and size, and succeeds. *)
+Theorem wire_visit_spec : forall fs,
+  Forall (fun f => wf_num (fst f)) fs ->
+  (N.of_nat (length (encode_fields fs)) <= max_int64)%N ->
+  wire_visit_all (encode_fields fs) None = (visits_of 0 fs, WOk).
+Proof. exact wire_visit_wellformed. Qed.
+Print Assumptions wire_visit_spec.
+
+(** A message cut anywhere strictly inside a field (inside its tag, its length
+    or its payload): the complete fields before it are visited and the visitor
+    fails - never a silent short visit.  (A cut exactly between two fields is a
+    well-formed shorter message; telling it apart is the CAS reader's size and
+    checksum validation, which then ends the stream with a read error: next
+    theorem.) *)
+Theorem wire_visit_truncation_is_error : forall fs num p j,
+  Forall (fun f => wf_num (fst f)) fs -> wf_num num ->
+  (N.of_nat (length (encode_fields fs)) + N.of_nat (length p) <= max_int64)%N ->
+  (0 < j < length (encode_field num p))%nat ->
+  wire_visit_all (encode_fields fs ++ firstn j (encode_field num p)) None
+  = (visits_of 0 fs, WErr code_invalid_argument).
+Proof. exact wire_visit_truncated. Qed.
+Print Assumptions wire_visit_truncation_is_error.
+
+(** Whatever the bytes, a stream that ends in a read error is never visited
+    successfully, and the model's fuel always suffices. *)
+Theorem wire_visit_read_error_is_error : forall bs c, snd (wire_visit_all bs (Some c)) <> WOk.
+Proof. exact wire_visit_all_read_error. Qed.
+Print Assumptions wire_visit_read_error_is_error.
+
+Theorem wire_visit_total : forall bs term, snd (wire_visit_all bs term) <> WFuel.
+Proof. exact wire_visit_all_terminates. Qed.
+Print Assumptions wire_visit_total.
+
+Example wire_example :
+  encode_fields [(1, [8; 1]); (2, []); (300, [7])]%N = [10; 2; 8; 1; 18; 0; 226; 18; 1; 7]%N
+  /\ wire_visit_all [10; 2; 8; 1; 18; 0; 226; 18; 1; 7]%N None
+     = ([mkVisit 1 2 2 [8; 1]; mkVisit 2 6 0 []; mkVisit 300 9 1 [7]]%N, WOk)
+  /\ wire_visit_all [10; 2; 8; 1; 18; 0; 226; 18; 1]%N None
+     = ([mkVisit 1 2 2 [8; 1]; mkVisit 2 6 0 []]%N, WErr 3)
+  /\ wire_visit_all [10; 2; 8; 1; 18]%N (Some 13) = ([], WErr 13)
+  /\ wire_visit_all [138; 128; 0; 128; 0]%N None = ([mkVisit 1 5 0 []]%N, WOk)
+  /\ wire_visit_all [8; 1]%N None = ([], WErr 3)
+  /\ wire_visit_all [10; 255; 255; 255; 255; 255; 255; 255; 255; 127]%N None = ([], WErr 3).
+Proof. vm_compute. repeat split; reflexivity. Qed.
